@@ -43,7 +43,7 @@ func (a jsonMultiset) hashCode(metadata []Metadata) [8]byte {
 		h = append(h, v.hashCode(metadata))
 	}
 	sort.Sort(h)
-	b := make([]byte, 0, len(a)*8)
+	b := []byte{0xB7, 0x21, 0x6E, 0xF9, 0x03, 0x8D, 0x54, 0xCA} // random bytes
 	for _, c := range h {
 		b = append(b, c[:]...)
 	}
